@@ -1,7 +1,11 @@
 package main
 
 import (
+	"encoding/json"
 	"fmt"
+	"os"
+	"os/exec"
+	"path/filepath"
 	"reflect"
 	"strings"
 
@@ -189,9 +193,10 @@ func engineNLPAnalysis(ctx *Ctx) {
 	// among them texts that differ from it only in punctuation or spacing - must still get the same analysis
 	remembered := map[string]string{}
 	var ring []string
-	render := func(pq *nlp.ProcessedQuery) string {
-		return fmt.Sprintf("%q|%v|%v|%v|%v|%v|%v", pq.Cleaned, pq.Actions, pq.Targets, pq.Keywords, pq.Intent, pq.Modifiers, pq.GetEnhancedKeywords())
-	}
+	render := c06Render
+	// texts in the order this process analysed them first (for the comparison with a fresh process at the end)
+	var order []string
+	defer func() { c06CrossProcess(ctx, order, remembered) }()
 	for i := 0; i < n; i++ {
 		if len(ring) > 50 && r.Intn(4) == 0 {
 			old := ring[r.Intn(len(ring))]
@@ -216,6 +221,9 @@ func engineNLPAnalysis(ctx *Ctx) {
 							Witness: map[string]interface{}{"case": cs, "first": prev, "now": got}})
 					} else if !ok {
 						remembered[t] = got
+						if len(order) < 6000 {
+							order = append(order, t)
+						}
 					}
 					ctx.R.Path("analysis-revisited", 1)
 				})
@@ -248,6 +256,9 @@ func engineNLPAnalysis(ctx *Ctx) {
 			enh := pq.GetEnhancedKeywords()
 			if _, ok := remembered[q]; !ok && len(remembered) < 200000 {
 				remembered[q] = render(pq)
+				if len(order) < 6000 && (i%4 == 0 || strings.Contains(q, "without")) {
+					order = append(order, q)
+				}
 				if len(ring) < 4000 {
 					ring = append(ring, q)
 				} else {
@@ -325,5 +336,78 @@ func engineNLPAnalysis(ctx *Ctx) {
 				ctx.R.Sample(map[string]interface{}{"query": q, "keywords": pq.Keywords, "enhanced": enh, "intent": pq.Intent})
 			}
 		})
+	}
+}
+
+func c06Render(pq *nlp.ProcessedQuery) string {
+	return fmt.Sprintf("%q|%v|%v|%v|%v|%v|%v", pq.Cleaned, pq.Actions, pq.Targets, pq.Keywords, pq.Intent, pq.Modifiers, pq.GetEnhancedKeywords())
+}
+
+func init() { helpers["nlpanalyze"] = c06HelperAnalyze }
+
+// nlpanalyze <in.json> <out.json>: a fresh process analyses the texts LAST TO FIRST and writes the analyses in input order.
+func c06HelperAnalyze(args []string) int {
+	b, err := os.ReadFile(args[0])
+	if err != nil {
+		return 2
+	}
+	var texts []string
+	if json.Unmarshal(b, &texts) != nil {
+		return 2
+	}
+	out := make([]string, len(texts))
+	p := nlp.NewQueryProcessor()
+	for i := len(texts) - 1; i >= 0; i-- {
+		func() {
+			defer func() {
+				if e := recover(); e != nil {
+					out[i] = fmt.Sprintf("panic: %v", e)
+				}
+			}()
+			out[i] = c06Render(p.ProcessQuery(texts[i]))
+		}()
+	}
+	ob, _ := json.Marshal(out)
+	if os.WriteFile(args[1], ob, 0o644) != nil {
+		return 2
+	}
+	return 0
+}
+
+// c06CrossProcess: "analysing the same text twice gives the same analysis" - also when the second analysis happens in another
+// process that met the texts in another order (an analysis may not depend on what was analysed before it).
+func c06CrossProcess(ctx *Ctx, order []string, remembered map[string]string) {
+	if len(order) == 0 {
+		return
+	}
+	in := filepath.Join(ctx.Scratch, "c06cross-in.json")
+	outp := filepath.Join(ctx.Scratch, "c06cross-out.json")
+	b, _ := json.Marshal(order)
+	if os.WriteFile(in, b, 0o644) != nil {
+		return
+	}
+	defer os.Remove(in)
+	defer os.Remove(outp)
+	self, _ := os.Executable()
+	if err := exec.Command(self, "nlpanalyze", in, outp).Run(); err != nil {
+		ctx.R.Inconcl("cross-process analysis helper failed: " + err.Error())
+		return
+	}
+	ob, err := os.ReadFile(outp)
+	var got []string
+	if err != nil || json.Unmarshal(ob, &got) != nil || len(got) != len(order) {
+		ctx.R.Inconcl("cross-process analysis helper output unreadable")
+		return
+	}
+	for i, t := range order {
+		ctx.R.Eval(1)
+		ctx.R.Path("analysis-compared-with-a-fresh-process", 1)
+		if got[i] != remembered[t] {
+			cs := map[string]interface{}{"query": t, "position_in_this_process": i, "texts": len(order)}
+			ctx.R.Violate(vlib.Violation{Property: "C06", Clause: "analysis-not-repeatable", Path: "ProcessQuery/other-process",
+				Detail:  fmt.Sprintf("the analysis of %s in this process (which had analysed %d other texts before it) differs from its analysis in a fresh process that met the texts in the opposite order", vlib.Q(t), i),
+				Witness: map[string]interface{}{"case": cs, "here": remembered[t], "fresh_process": got[i]}})
+			return
+		}
 	}
 }
